@@ -1089,37 +1089,61 @@ func checkDurationUnits(r *Report, p *Prog) {
 			r.Check(len(rk) == 1 && rk[0] == w.quo, rule, fmt.Sprintf("writer and reader agree on the unit of %s", k), w.pos, fmt.Sprintf("%g ns on both sides", w.quo), fmt.Sprintf("writer divides by %g ns, reader multiplies by %v ns", w.quo, rk))
 		}
 	}
-	// absolute value and sign prefix
+	// absolute value and sign prefix: phi(d, -d) with the negated edge taken under d < 0 and the "-" prefix added there
 	okAbs := false
+	unsignedMag := false
+	negPos := p.Pos(mt.Pos())
+	isParam := func(v ssa.Value) bool { return stripConv(v) == ssa.Value(mt.Params[0]) }
 	if ph, ok := absPhi.(*ssa.Phi); ok && len(ph.Edges) == 2 {
 		for i, e := range ph.Edges {
-			if bo, ok := e.(*ssa.BinOp); ok && bo.Op == token.MUL && ph.Edges[1-i] == ssa.Value(mt.Params[0]) && bo.X == ssa.Value(mt.Params[0]) {
-				if f, _ := constNum(bo.Y); f == -1 {
-					// taken under d < 0 and the "-" prefix is added in the same block
-					pb := ph.Block().Preds[i]
-					neg := false
-					if len(pb.Preds) == 1 {
-						if iff, ok := pb.Preds[0].Instrs[len(pb.Preds[0].Instrs)-1].(*ssa.If); ok && pb.Preds[0].Succs[0] == pb {
-							if lt, ok := iff.Cond.(*ssa.BinOp); ok && lt.Op == token.LSS && lt.X == ssa.Value(mt.Params[0]) {
-								if z, okz := constNum(lt.Y); okz && z == 0 {
-									neg = true
-								}
-							}
-						}
-					}
-					pre := false
-					for _, in := range pb.Instrs {
-						if cat, ok := in.(*ssa.BinOp); ok && cat.Op == token.ADD {
-							if s, _ := constStr(cat.X); s == "-" {
-								pre = true
-							}
-						}
-					}
-					okAbs = neg && pre
+			if !isParam(ph.Edges[1-i]) {
+				continue
+			}
+			isNeg := false
+			var negT types.Type
+			switch x := e.(type) {
+			case *ssa.BinOp: // d * -1
+				if f, _ := constNum(x.Y); x.Op == token.MUL && f == -1 && isParam(x.X) {
+					isNeg, negT = true, x.Type()
+				}
+			case *ssa.UnOp: // -d
+				if x.Op == token.SUB && isParam(x.X) {
+					isNeg, negT = true, x.Type()
 				}
 			}
+			if !isNeg {
+				continue
+			}
+			if in, ok := e.(ssa.Instruction); ok {
+				negPos = p.InstrPos(in)
+			}
+			if bt, ok := negT.Underlying().(*types.Basic); ok && bt.Info()&types.IsUnsigned != 0 {
+				unsignedMag = true
+			}
+			// taken under d < 0 and the "-" prefix is added in the same block
+			pb := ph.Block().Preds[i]
+			neg := false
+			if len(pb.Preds) == 1 {
+				if iff, ok := pb.Preds[0].Instrs[len(pb.Preds[0].Instrs)-1].(*ssa.If); ok && pb.Preds[0].Succs[0] == pb {
+					if lt, ok := iff.Cond.(*ssa.BinOp); ok && lt.Op == token.LSS && lt.X == ssa.Value(mt.Params[0]) {
+						if z, okz := constNum(lt.Y); okz && z == 0 {
+							neg = true
+						}
+					}
+				}
+			}
+			pre := false
+			for _, in := range pb.Instrs {
+				if cat, ok := in.(*ssa.BinOp); ok && cat.Op == token.ADD {
+					if s, _ := constStr(cat.X); s == "-" {
+						pre = true
+					}
+				}
+			}
+			okAbs = neg && pre
 		}
 	}
+	r.Check(unsignedMag, rule, p.FnName(mt)+": the magnitude of a negative duration is taken in unsigned arithmetic", negPos, "-uint64(d)", "the duration is negated in signed 64-bit arithmetic: the minimum duration has no positive counterpart, stays negative, and is written as \"-PT\", which does not parse")
 	r.Check(okAbs, rule, p.FnName(mt)+": negative durations are written as \"-\" followed by the components of -d", p.Pos(mt.Pos()), "d<0: d*=-1 and \"-\" prefix on the same branch", "the components are not taken from |d| with a \"-\" prefix exactly when d < 0")
 	// no floating point on the writer side
 	nf := 0
@@ -1204,6 +1228,45 @@ func checkFieldLocal(r *Report, p *Prog) {
 				got = append(got, fc.AP(lf))
 			}
 			r.Check(okR, rule, fmt.Sprintf("%s: a successful result is the location itself or empty [%s]", p.FnName(nf), p.InstrPos(ret)), p.InstrPos(ret), "returns the parameter or \"\"", "returns "+strings.Join(got, ", ")+": an accepted endpoint location is rewritten")
+		}
+		// every binding the package itself names keeps its location: the normaliser compares its binding parameter with
+		// each exported binding constant (anything it does not recognise is blanked)
+		{
+			at := NewAnalysis(p)
+			at.Inline = func(f *ssa.Function) bool { return p.InLibrary(f) && isPredicate(f) }
+			tb := NewTable(r, at, nf)
+			seenB := map[string]bool{}
+			var prefixes []string
+			for _, ai := range tb.atomsIn() {
+				if ai.Kind == "call" && len(ai.Args) == 3 && ai.Args[0] == "strings.HasPrefix" && ai.Args[1] == "p:"+nf.Params[0].Name() && strings.HasPrefix(ai.Args[2], `c:"`) {
+					prefixes = append(prefixes, strings.Trim(strings.TrimPrefix(ai.Args[2], "c:"), `"`))
+				}
+				if ai.Kind != "eq" {
+					continue
+				}
+				for i, ar := range ai.Args {
+					if ar == "p:"+nf.Params[0].Name() && strings.HasPrefix(ai.Args[1-i], `c:"`) {
+						seenB[strings.Trim(strings.TrimPrefix(ai.Args[1-i], "c:"), `"`)] = true
+					}
+				}
+			}
+			sc := p.ByPath[modPath].Types.Scope()
+			for _, nm := range sc.Names() {
+				c, ok := sc.Lookup(nm).(*types.Const)
+				if !ok || !c.Exported() || c.Val().Kind() != constant.String {
+					continue
+				}
+				v := constant.StringVal(c.Val())
+				if !strings.Contains(v, ":bindings:") {
+					continue
+				}
+				for _, pf := range prefixes {
+					if strings.HasPrefix(v, pf) {
+						seenB[v] = true
+					}
+				}
+				r.Check(seenB[v], rule, fmt.Sprintf("%s: endpoints of binding %s keep their location", p.FnName(nf), nm), p.Pos(nf.Pos()), "compared with the binding parameter", "the normaliser never compares its binding with "+nm+" ("+v+"): endpoints of that binding fall into the unknown-binding arm and their http(s) locations are blanked on every parse")
+			}
 		}
 		// every call stores the result back into the field the argument was read from
 		for _, cs := range p.StaticCallersOf(nf) {
@@ -1391,7 +1454,6 @@ func checkXMLTags(r *Report, p *Prog) {
 		r.Check(len(bad) == 0, rule, fmt.Sprintf("%s: every field is carried by encoding/xml", n.Obj().Name()), pos, fmt.Sprintf("%d fields (embedded structs flattened), exported, untagged \"-\", no two with the same XML name and kind", nf), strings.Join(bad, "; ")+": encoding/xml silently omits such fields, so the value does not survive a marshal/unmarshal generation")
 	}
 }
-
 
 // tableStrings: v is an element of a package-level []string that only the package initialiser writes; returns its elements.
 func tableStrings(p *Prog, v ssa.Value) ([]string, bool) {
